@@ -122,7 +122,9 @@ def make_inputs(n_ft, seed, n_src):
             d["sources"] = [0.3 * (-1) ** (q + s) for s in range(n_src)]
         ip.add_individual_parameters(sid, d)
     settings = {"scipy_minimize": AlgorithmSettings("scipy_minimize", seed=seed, progress_bar=False, n_jobs=1),
-                "mean_posterior": AlgorithmSettings("mean_posterior", seed=seed, progress_bar=False, n_iter=12),
+                # nested settings (annealing: the algorithm derives annealing.n_iter from the fraction) must not be written back
+                "mean_posterior": AlgorithmSettings("mean_posterior", seed=seed, progress_bar=False, n_iter=12,
+                                                    annealing=dict(do_annealing=True, initial_temperature=3.0, n_plateau=3, n_iter=None, n_iter_frac=0.5)),
                 "mode_posterior": AlgorithmSettings("mode_posterior", seed=seed, progress_bar=False, n_iter=12)}
     return dict(df=df, data=Data.from_dataframe(df), ip=ip, timepoints={ids[0]: [66.0, 71.5, 80.0], ids[1]: [69.25]}, settings=settings,
                 features=[f"f{k}" for k in range(n_ft)],
@@ -165,10 +167,13 @@ def standin_histories(tier, seed):
             ref = {}
             for op in ops:
                 m = loaded_copy(base, tmp)
+                fp = inputs_fingerprint(inputs)
                 try:
                     ref[op] = run_op(m, op, inputs, seed)
                 except Exception as e:
                     ref[op] = f"{type(e).__name__}: {str(e)[:80]}"
+                evals += 1
+                inputs_unchanged(fp, inputs, op, violations)          # the very first use of the inputs is monitored too
             histories = [(a,) for a in ops] + list(itertools.product(ops, ops))
             for origin in ("fitted", "loaded"):
                 for hist in histories:
